@@ -88,15 +88,40 @@ fn main() {
         match r {
             Err(_) => println!("C19-REPLAY PANIC case=version={ver} long_version={long}: Man::render_version_section / Man::render panicked"),
             Ok((sec, all)) => {
-                let want = if long { Some("1.2.3-long") } else if ver { Some("1.2.3") } else { None };
-                let ok = match want {
-                    Some(v) => sec.contains(v) && all.contains(v),
-                    None => !all.contains(".SH VERSION"),
+                // (roff escapes `-` as `\-`, so compare the pieces around it)
+                let ok = if long {
+                    sec.contains("1.2.3") && sec.contains("long") && all.contains("long")
+                } else if ver {
+                    sec.contains("1.2.3") && all.contains("1.2.3") && !all.contains("long")
+                } else {
+                    !all.contains(".SH VERSION") && !sec.contains(".SH VERSION")
                 };
                 if !ok {
                     println!("C19-REPLAY MISMATCH case=version={ver} long_version={long}: version section {:?}", sec);
                 }
             }
+        }
+    }
+    // user text with a line break never produces a line that starts a roff request
+    let evil = "X\n.so /etc/passwd";
+    let cases: Vec<(&str, Command)> = vec![
+        ("help_heading", Command::new("p").arg(Arg::new("o").long("o").action(ArgAction::SetTrue).help_heading(evil))),
+        ("subcommand_help_heading", Command::new("p").subcommand_help_heading(evil).subcommand(Command::new("s"))),
+        ("version", Command::new("p").version(evil)),
+        ("long_version", Command::new("p").long_version(evil)),
+        ("about", Command::new("p").about(evil)),
+        ("help", Command::new("p").arg(Arg::new("o").long("o").action(ArgAction::SetTrue).help(evil))),
+        ("author", Command::new("p").author(evil)),
+        ("after_help", Command::new("p").after_help(evil)),
+        ("value_name", Command::new("p").arg(Arg::new("o").long("o").action(ArgAction::Set).value_name(evil))),
+        ("subcommand about", Command::new("p").subcommand(Command::new("s").about(evil))),
+    ];
+    for (what, cmd) in cases {
+        extra += 1;
+        let p = page(cmd);
+        let bad: Vec<&str> = p.lines().filter(|l| l.to_lowercase().starts_with(".so")).collect();
+        if !bad.is_empty() {
+            println!("C19-REPLAY MISMATCH case=line break in {what}: the page contains request line(s) made of user text: {bad:?}");
         }
     }
     println!("C19-REPLAY DONE {} cases", n + 4 + extra);
